@@ -4,6 +4,7 @@ package flags
 
 import (
 	"strings"
+	"unicode/utf8"
 )
 
 const (
@@ -45,7 +46,11 @@ func stripOptionPrefix(optname string) (prefix string, name string, islong bool)
 func splitOption(prefix string, option string, islong bool) (string, string, *string) {
 	pos := strings.Index(option, "=")
 
-	if (islong && pos >= 0) || (!islong && pos == 1) {
+	// A short option may only be split right after its (possibly
+	// multi-byte) first character.
+	_, n := utf8.DecodeRuneInString(option)
+
+	if (islong && pos >= 0) || (!islong && pos > 0 && pos == n) {
 		rest := option[pos+1:]
 		return option[:pos], "=", &rest
 	}
